@@ -231,6 +231,14 @@ pub struct UsesHigh {
     a: Alpha,
 }
 
+/// climbs above the filesystem root and comes down again into a directory that EXISTS (the history runner creates
+/// it): still a location above the root, i.e. an error - whatever the operating system would make of `/..`
+#[derive(TS)]
+#[ts(export_to = "../../../../../../../../../../../../../../../../dev/shm/verif-toohigh/HighExisting.ts")]
+pub struct HighExisting {
+    t: i32,
+}
+
 /// reaches the type that climbs too high only through another type
 #[derive(TS)]
 pub struct ViaHigh {
@@ -333,6 +341,7 @@ pub fn entries() -> Vec<Entry> {
         entry!("TooHigh", TooHigh),
         entry!("UsesHigh", UsesHigh),
         entry!("ViaHigh", ViaHigh),
+        entry!("HighExisting", HighExisting),
         entry!("i32", i32),
         entry!("Vec<Alpha>", Vec<Alpha>),
     ]
